@@ -3,7 +3,7 @@
    out-of-memory abort are outside any Coq model; every generated hostile input is therefore also run
    on the implementation under a memory limit with its allocation and time measured). *)
 From Coq Require Import List NArith ZArith. From Coq Require Import Strings.Byte.
-From PrismV Require Import IO.IO IO.IOTheory IO.Parse Icc.Icc Meta.Meta Meta.MetaProofs Meta.Hostile.
+From PrismV Require Import IO.IO IO.IOTheory IO.Parse Icc.Icc Meta.Meta Meta.MetaProofs Meta.Hostile Meta.Termination Meta.NoAlloc.
 
 (* Profile.Description has no recover(): for EVERY tag table its model yields a string or an error,
    never a panic, and its loops terminate within the bytes of the tag (no fuel exhaustion) *)
@@ -35,3 +35,39 @@ Theorem C09_load_total : forall inflate fuel r,
   src_data (snd (auto_load inflate fuel r)) = src_data r /\ src_end (snd (auto_load inflate fuel r)) = src_end r.
 Proof. exact auto_replays_everything. Qed.
 Print Assumptions C09_load_total.
+
+(* hang, for the loaders themselves: for EVERY input, the PNG, JPEG and WebP loader models run with the
+   fuel their callers give them (input length + 1) never end in the out-of-fuel value: each loop
+   iteration (chunk, segment, entropy byte, skipped byte) consumes at least one input byte, so the
+   number of iterations is linear in the input length whatever lengths and counts the input declares *)
+Theorem C09_loaders_terminate_within_input : forall inflate d,
+  pure_of inflate png_prog d <> Err EFuel /\ pure_of inflate jpeg_prog d <> Err EFuel /\ pure_of inflate webp_prog d <> Err EFuel.
+Proof. exact loaders_never_out_of_fuel. Qed.
+Print Assumptions C09_loaders_terminate_within_input.
+
+(* the WebP profile reader swallows its errors into "ICC error": its inner program never runs out of fuel either *)
+Theorem C09_webp_profile_reader_terminates : forall inflate fuel len d,
+  length d < fuel -> fst (run_pure inflate (webp_iccp_inner fuel len) d) <> Err EFuel.
+Proof. exact nf_webp_iccp_inner. Qed.
+Print Assumptions C09_webp_profile_reader_terminates.
+
+(* ReadProfile: the tag-table loop driven by a declared 32-bit count consumes 12 bytes per iteration *)
+Theorem C09_read_profile_terminates_within_input : forall inflate fuel d,
+  length d < fuel -> fst (run_pure inflate (read_profile fuel) d) <> Err EFuel.
+Proof. exact icc_never_out_of_fuel. Qed.
+Print Assumptions C09_read_profile_terminates_within_input.
+
+(* memory, for the models themselves (the hypothesis of C09_allocation_bounded_partial discharged):
+   the JPEG, WebP and ICC readers allocate at most the bytes delivered to them ... *)
+Theorem C09_jpeg_webp_icc_allocation : forall inflate fuel d,
+  (alloc_pure inflate (jpeg_prog fuel) d <= lenN d)%N /\ (alloc_pure inflate (webp_prog fuel) d <= lenN d)%N /\
+  (alloc_pure inflate (read_profile fuel) d <= lenN d)%N.
+Proof. exact jpeg_webp_icc_alloc_bounded. Qed.
+Print Assumptions C09_jpeg_webp_icc_allocation.
+
+(* ... and the PNG reader at most the bytes delivered plus what zlib returned for the iCCP streams
+   (partial: the expansion ratio of zlib is outside the model and is measured on the implementation) *)
+Theorem C09_png_allocation_partial : forall inflate fuel d,
+  (alloc_pure inflate (png_prog fuel) d <= lenN d + inflated_pure inflate (png_prog fuel) d)%N.
+Proof. exact png_alloc_bounded. Qed.
+Print Assumptions C09_png_allocation_partial.
